@@ -28,8 +28,37 @@ func idInBucket(r *rng, root [20]byte, i int) (id [20]byte) {
 	return
 }
 
+// addrExempt: while set (generation is single-threaded), randAddr draws addresses of the networks BEP 42 exempts
+// (10/8, 172.16/12, 192.168/16; fe80::/10), for which every node id is acceptable: histories for nodes that enforce
+// the security extension and whose own id is not known when the history is generated (see srvCfg.autoID).
+var addrExempt bool
+
+func exemptV4(r *rng) []byte {
+	switch r.intn(3) {
+	case 0:
+		return []byte{10, byte(r.intn(256)), byte(r.intn(256)), byte(1 + r.intn(254))}
+	case 1:
+		return []byte{172, byte(16 + r.intn(16)), byte(r.intn(256)), byte(1 + r.intn(254))}
+	default:
+		return []byte{192, 168, byte(r.intn(256)), byte(1 + r.intn(254))}
+	}
+}
+
 func randAddr(r *rng, fam int) *net.UDPAddr {
 	port := 1 + r.intn(65535)
+	if addrExempt {
+		switch fam {
+		case 0:
+			return udp(exemptV4(r), port)
+		case 1:
+			ip := r.bytes(16)
+			ip[0] = 0xfe
+			ip[1] = 0x80 | ip[1]&0x3f
+			return udp(ip, port)
+		default:
+			return udp(mapped(exemptV4(r)), port)
+		}
+	}
 	switch fam {
 	case 0:
 		return udp([]byte{byte(11 + r.intn(200)), byte(r.intn(256)), byte(r.intn(256)), byte(1 + r.intn(254))}, port)
@@ -105,15 +134,24 @@ func baseCfg(r *rng, scenario string) srvCfg {
 	c.cb = true
 	c.budget = -1
 	c.scenario = scenario
+	if cfgOverride != nil {
+		cfgOverride(&c)
+	}
 	return c
 }
+
+// cfgOverride, while set, is applied to every base configuration (variants of whole scenarios under another
+// configuration, see server_gen_cfg.go)
+var cfgOverride func(*srvCfg)
 
 var bucketSpread = []int{0, 1, 2, 3, 7, 8, 17, 63, 64, 100, 127, 150, 158, 159}
 
 // ---------------------------------------------------------------- scenario: routing table
 func genTable(r *rng, idx int, n int) srvCase {
 	c := srvCase{idx: idx, cfg: baseCfg(r, "table")}
-	if r.intn(4) == 0 {
+	if c.cfg.autoID {
+		// the variant fixes security / public IP itself
+	} else if r.intn(4) == 0 {
 		c.cfg.nosec = false
 		if r.bool() {
 			// a public IP in the configuration together with a caller-chosen node id
@@ -1213,5 +1251,19 @@ func genServerCases(seed uint64, tier string) []srvCase {
 	add(genPeersHook, 4)
 	add(genSecNets, 4)
 	add(genPeerFam, 4)
+	// server_gen_cfg.go
+	add(genAutoIDTable, 4)
+	add(genAutoIDPeerFam, 1)
+	add(genAutoIDMethods, 1)
+	add(roVariant(func(r *rng, i int) srvCase { return genTable(r, i, 50+r.intn(40)) }), 1)
+	add(roVariant(genQueries), 1)
+	add(roVariant(genCollide), 1)
+	add(genRoDirected, 1)
+	add(genIntArgs, 3)
+	add(genPutReject, 3)
+	if tier == "thorough" {
+		add(roVariant(genBlock), 1)
+		add(roVariant(genSecNets), 1)
+	}
 	return cases
 }
